@@ -103,9 +103,38 @@ def rule_phi_shape(ctx: Ctx) -> None:
     ctx.ob("C13-6", "G3", ia, rets[0] if rets else None, ok, "available ⇔ phi(now) < threshold (so availability is monotone as well: once suspected, suspected until the next heartbeat)")
     ctx.floor("C13-6", 5)
 
+def rule_probe_failure_suspects(ctx: Ctx) -> None:
+    """C13-3: whenever the ack of a direct probe is still outstanding when the ack timeout fires, the target is suspected and a suspicion
+    timeout is armed — on every path, whatever the indirect-probe configuration."""
+    from ..facts import enumerate_paths
+    from ..cfg import own_exprs
+    prog = ctx.prog
+    fn = prog.func(MEM, "MembershipProtocol._handle_indirect_ping")
+    ff = ctx.flow(fn)
+    bad = []
+    n_pending = 0
+    for p in enumerate_paths(ff, ff.cfg.entry):
+        if p.end != "exit":
+            continue
+        known = p.decided(lambda t: t == "target_namenotinself._members")
+        unknown_none = p.decided(lambda t: t == "target_nameisNone")
+        acked = p.decided(lambda t: t == "target_namenotinself._pending_acks")
+        if known is True or unknown_none is True or acked is True:
+            continue
+        n_pending += 1
+        calls = [path_of(c.func) for nd in p.nodes for e in own_exprs(nd) for c in walk_scope(e) if isinstance(c, ast.Call)]
+        timer = any(isinstance(c, ast.Call) and path_of(c.func) == "Event" and "MembershipSuspicionTimeout" in unparse(c) for nd in p.nodes for e in own_exprs(nd) for c in walk_scope(e))
+        if "self._suspect_member" not in calls or not timer:
+            bad.append(p.describe()[:160])
+    ctx.ob("C13-3", "G2", fn, "unanswered probe ⇒ suspect + timer", n_pending >= 1 and not bad,
+           "every path on which the probed member's ack is still outstanding suspects it and arms the suspicion timeout (a member never heard from has phi 0 forever, so this is the only way it is ever suspected)"
+           + ("" if not bad else " — path without: " + bad[0]))
+
+
 def run(ctx: Ctx) -> None:
     prog = ctx.prog
     ctx.guarded(rule_phi_shape)
+    ctx.guarded(rule_probe_failure_suspects)
     c = prog.cls(MEM, "MembershipProtocol")
     gens = [m.qual for m in c.methods.values() if m.is_generator]
     ctx.ob("C13-0", "G5", None, "membership handlers are atomic", not gens, f"no MembershipProtocol method suspends (generators: {gens})", relpath=MEM, node=c.node)
@@ -193,6 +222,8 @@ def run(ctx: Ctx) -> None:
 
 
 MUTANTS = [
+    ("no-indirect-probes-no-suspicion", MEM, "        # Pick random delegates (excluding self and target)", "        if self._indirect_probe_count <= 0:\n            return []\n        # Pick random delegates (excluding self and target)", "C13-3"),
+    ("probe-failure-does-not-suspect", MEM, "        self._suspect_member(info, self.now.to_seconds())\n", "", "C13-3"),
     ("phi-saturates-finite", PHI, "        if p <= 0:\n            return float(\"inf\")", "        if p <= 0:\n            return 307.65", "C13-6"),
     ("phi-uses-erf", PHI, "        p = 0.5 * math.erfc(y / math.sqrt(2))", "        p = 0.5 * (1 + math.erf(y / math.sqrt(2)))", "C13-6"),
     ("phi-elapsed-reversed", PHI, "        elapsed = now_s - self._last_heartbeat\n        if elapsed < 0:", "        elapsed = self._last_heartbeat - now_s\n        if elapsed < 0:", "C13-6"),
